@@ -16,6 +16,8 @@ TAXA_POOL = [
     "meta/program", "meta/count/x", "a", "a/b", "a/bc", "a/b_c", "a/b/c", "a/b/c/d", "flow/loop",
     "flow/loop/for", "flow/loop/while", "flow/conditional", "op/mult", "op/multiply", "var/assignment",
     "x", "x/y", "call/print", "def/function",
+    # non-word characters INSIDE a segment: a pattern stops at a word boundary, not at a slash (seeded change C04-d)
+    "import/standard/urllib", "import/standard/urllib.request", "import/standard/xml.etree.ElementTree", "a/b-c", "a/b.c",
 ]
 # some paths, read as regular expressions, match OTHER paths too ("q.py" matches "q_py.py", "zz.py" matches "zzapy.py"):
 # a `.py` criterion is a pattern matched from the start, never a mere path (seeded change C04-c)
@@ -23,7 +25,8 @@ PROG_POOL = ["p1.py", "p2.py", "p10.py", "dir/p1.py", "dir/q.py", "q.py", "zz.py
 TAXON_PATTERNS = [
     "a", "a/b", "a/b$", "a/(b|bc)", "a/b.", "flow", "flow/loop", "flow/lo", "flow/.*for", ".*", "op|var", "op/mult",
     "op/mult$", "meta", "meta/program", "x", "x/y", "nothing/here", "var/assignment", "call", "a/b/c", "a/b_", "def/function",
-    "flow/conditional", "[ax]",
+    "flow/conditional", "[ax]", "import/standard/urllib", "import/standard/xml", "import/standard/xml.etree", "a/b-",
+    "import/standard/urllib\\.", "import",
 ]
 PROG_PATTERNS = ["p1.py", "p1\\.py", "dir/.*\\.py", "q.py", ".*\\.py", "p.*py$|zz.py", "zz.py", "nothing.py", "p1_bis.py", "(dir/)?p1.py"]
 PREDICATES = [
